@@ -6,6 +6,7 @@ LEVEL = "exploration"
 RULE = ("case = (api, impl, decode, content class, partition of the output into WRTE payloads, read fragmentation, empty-read rate, "
         "maxdata, remote-id regime, id start, noise); oracle: result == device-side record of payloads written on that stream "
         "(decode=False: exact concatenation / exact list; decode=True: backslashreplace decoding computed by the harness). "
+        "burst: a device that writes ahead of the acknowledgements pours 1100-2500 chunks of one stream into another command's reader (all parked), then the first stream is drained. "
         "non-trivial = at least one WRTE chunk; distinct = distinct (api, impl, decode, chunk-count bucket, content class, frag, noise) "
         "signatures. Exhaustive block: every composition of fixed <=10-byte strings containing 2/3/4-byte sequences.")
 ASSUMPTIONS = [
